@@ -1,13 +1,14 @@
-\* exhaustive: every boundary list within {1,3,5}, every multiset of <= 4 recorded values from ranks 0..6,
-\* every split over <= 3 collections, one reader of either temporality
+\* pipe 1 reader (delta|cumulative), ranks 0..6, every boundary list within {1,3,5}, <=3 values, <=3 collections
+\* (tools/props/C07.py generates the same text; thorough tier uses larger constants)
 CONSTANTS MaxRank = 6
   BoundSets = {{}, {1}, {3}, {5}, {1,3}, {1,5}, {3,5}, {1,3,5}}
   Tables = {"D_small"}
   MMChoices = {TRUE}
-  Mode = "pipe" NSlots = 1 NKeys = 1 ReaderCfgs = {1, 2}
-  MaxAgg = 4 MaxOps = 3 Balanced = FALSE Dev = {} Hist = FALSE
+  Mode = "pipe" NSlots = 2 NKeys = 1 ReaderCfgs = {1, 2}
+  MaxAgg = 3 MaxOps = 3 Balanced = FALSE Hist = FALSE
+  Dev = {}
 INIT Init
 NEXT Next
 VIEW View
 CONSTRAINT Bound
-INVARIANTS TypeOK BucketsPartition EveryValueInOneBucket PointIsSummary ReadersAgree
+INVARIANTS TypeOK BucketsPartition BucketRule EveryValueInOneBucket SumExact MinMaxExact PointIsSummary ReadersAgree
